@@ -10,13 +10,17 @@
      - C13_ising_value: ising(d, J, h) equals -J sum s_i s_{i+1} - h sum s_i for every d >= 2;
      - C13_exciton_value: exciton_chain(n, alpha, beta) is the cyclic nearest-neighbour sum of C12 with blocks
        alpha n, beta a+, beta a / a, a+ for every n >= 2.
-   PARTIAL / outside the proof: non-negativity of the off-diagonals (the scalar structure has no order), the
+     - C13_pattern_offdiag / C13_cascade_offdiag: SIGN CONDITION.  If the off-diagonal entries of the single-site blocks and
+       of the nearest-neighbour couplings lie in an additive cone P (0 in P, closed under +), every off-diagonal entry of the
+       open-chain pattern operator lies in P; signaling_cascade(d) meets this for every d, cell size, rates and propensity
+       table in a cone closed under products (P = "non-negative": off-diagonals >= 0; instance over Z below).
+   PARTIAL / outside the proof: non-negativity of the off-diagonals of two_step_destruction and of the
    SLIM-built models co_oxidation and toll_station beyond C12's pattern theorem (their super-core SVD is an oracle),
    unitarity of qfa/qfan/shor/qft/iqft, "QFT groups multiply to the bit-reversed DFT" (roots of unity),
    FPU/Kuramoto right-hand sides and the fractals: decided by the side check (search) in harness/props/c13.py. *)
 From Coq Require Import ZArith List Lia Arith.
 Import ListNotations.
-Require Import Ring Sums Matrix Core Chain Sweep Slim SlimProof GeneratorProof Models ModelsProof.
+Require Import Ring Sums Matrix Core Chain Sweep Slim SlimProof GeneratorProof Models ModelsProof OffdiagProof.
 Open Scope cr_scope.
 
 Theorem C13_pattern_generator (R : cring) rc (s0 s1 : site R) rest ys :
@@ -51,6 +55,35 @@ Theorem C13_exciton_value (R : cring) (alpha beta : R) k x y xs ys :
   sum 2 (fun q => sM (exc_site alpha beta) q x y * cycL (repeat (exc_site alpha beta) (S k)) q xs ys).
 Proof. exact (exciton_value alpha beta k x y xs ys). Qed.
 Print Assumptions C13_exciton_value.
+
+Theorem C13_pattern_offdiag (R : cring) (P : R -> Prop) (P0 : P 0) (Padd : forall a b, P a -> P b -> P (a + b))
+        (ss : list (site R)) xs ys :
+  length xs = length ss -> length ys = length ss -> xs <> ys -> S_ok P ss -> pair_ok P ss -> P (Tsum ss xs ys).
+Proof. exact (Tsum_offdiag_cone P P0 Padd ss xs ys). Qed.
+Print Assumptions C13_pattern_offdiag.
+
+Theorem C13_cascade_offdiag (R : cring) (P : R -> Prop) (P0 : P 0) (Padd : forall a b, P a -> P b -> P (a + b))
+        (P1 : P 1) (Pmul : forall a b, P a -> P b -> P (a * b)) (n : nat) (a c : R) (l : nat -> R) d xs ys :
+  P a -> P c -> (forall y, P (l y)) ->
+  length xs = length (cascade_sites n a c l d) -> length ys = length (cascade_sites n a c l d) -> xs <> ys ->
+  P (elem (signaling_cascade n a c l d) xs ys).
+Proof. intros Pa Pc Pl. exact (cascade_offdiag P P0 Padd P1 Pmul n a c l Pa Pc Pl d xs ys). Qed.
+Print Assumptions C13_cascade_offdiag.
+
+(* instance over the integers: non-negative rates give non-negative off-diagonal entries *)
+Theorem C13_cascade_offdiag_Z (n : nat) (a c : Z) (l : nat -> Z) d xs ys :
+  (0 <= a)%Z -> (0 <= c)%Z -> (forall y, 0 <= l y)%Z ->
+  length xs = length (@cascade_sites Zring n a c l d) -> length ys = length (@cascade_sites Zring n a c l d) -> xs <> ys ->
+  (0 <= elem (@signaling_cascade Zring n a c l d) xs ys)%Z.
+Proof.
+  intros Ha Hc Hl.
+  apply (C13_cascade_offdiag Zring (fun z => (0 <= z)%Z)); try assumption.
+  - apply Z.le_refl.
+  - intros u v Hu Hv. change (0 <= u + v)%Z. lia.
+  - change (0 <= 1)%Z. lia.
+  - intros u v Hu Hv. change (0 <= u * v)%Z. nia.
+Qed.
+Print Assumptions C13_cascade_offdiag_Z.
 
 (* non-vacuity: a 3-species cascade with 3 cell states over the integers; all 27 column sums vanish, and the
    operator is not zero *)
